@@ -96,7 +96,18 @@ pub fn run_one(b: u64, kind: &str, labels: &[String], seed: u64) -> Value {
                 };
                 let t0 = 1_000_000 + 1000 * i as u64;
                 let k3 = crypto::keypair(3);
+                // the announcer's clock: records genuinely signed at an instant relative to OUR clock (responses carry the
+                // announcer's timestamp as is; nothing says it is not ahead of ours)
+                let now = dht::verif::unix_micros();
                 let l: Vec<B> = match lb {
+                    "time_past_1h" => vec![entry(&victim, &h, now - 3_600_000_000, true)],
+                    "time_now" => vec![entry(&victim, &h, now, true)],
+                    "time_future_1s" => vec![entry(&victim, &h, now + 1_000_000, true)],
+                    "time_future_45s" => vec![entry(&victim, &h, now + 45_000_000, true)],
+                    "time_future_1h" => vec![entry(&victim, &h, now + 3_600_000_000, true)],
+                    "time_zero" => vec![entry(&victim, &h, 0, true)],
+                    "time_max" => vec![entry(&victim, &h, u64::MAX, true)],
+                    "time_negative" => vec![entry(&victim, &h, (-5i64) as u64, true), entry(&other, &h, i64::MIN as u64, true)],
                     "authentic" => vec![entry(&victim, &h, t0, true), entry(&other, &h, t0 + 1, true)],
                     "all_bad" => vec![entry(&victim, &h, t0, false), entry(&other, &h, t0 + 1, false)],
                     "wrong_infohash" => vec![entry(&victim, &crypto::sha1(b"another infohash"), t0, true)],
@@ -209,7 +220,7 @@ pub fn run_one(b: u64, kind: &str, labels: &[String], seed: u64) -> Value {
             Item::SignedPeers(list) => {
                 for (k, t, sig) in list {
                     let ok = crypto::verify(k, &crypto::announce_signable(&target, *t), sig);
-                    let from = ((*t - 1_000_000) / 1000) as i64;
+                    let from = t.checked_sub(1_000_000).map(|d| (d / 1000).min(1 << 40) as i64).unwrap_or(-1);
                     let label = if from >= 0 && (from as usize) < labels.len() { labels[from as usize].clone() } else { "unknown".into() };
                     yielded.push(json!({"verified": ok, "from": from, "label": label}));
                 }
